@@ -685,3 +685,135 @@ func checkC07CommandNamespace(c *Ctx, n int) {
 		})
 	}
 }
+
+// checkC07DigitOption: a token such as -5 or -2.5 whose first letter is no short option of the parser is
+// an unknown option like any other - also when the next positional field is a (signed) number that the
+// token would convert to.  (A negative number is a VALUE only as the argument of a signed numeric option.)
+func checkC07DigitOption(c *Ctx, n int) {
+	r := c.Rng
+	for i := 0; i < n; i++ {
+		policy := []string{"fail", "ignore", "identity"}[r.Intn(3)]
+		cs := &Case{Name: "app", NsDelim: ".", EnvNsDelim: "_"}
+		switch policy {
+		case "ignore":
+			cs.Opts |= flags.IgnoreUnknown
+		case "identity":
+			cs.Handler = "identity"
+		}
+		firstTy := []string{"int", "f64", "i8"}[r.Intn(3)]
+		root := &StructDesc{Fields: []FieldDesc{
+			{Name: "V", Exported: true, Kind: "v", Ty: "bool", Tag: `short:"v"`},
+			{Name: "One", Exported: true, Kind: "v", Ty: "bool", Tag: `short:"1"`},
+			{Name: "Args", Exported: true, Kind: "s", Tag: `positional-args:"yes"`, Sub: &StructDesc{Fields: []FieldDesc{
+				{Name: "Count", Exported: true, Kind: "v", Ty: firstTy}, {Name: "Rest", Exported: true, Kind: "v", Ty: "Lint"}}}}}}
+		cs.Build = []BuildOp{{Kind: "addgroup", Target: 1, Short: "Application Options", Struct: root}}
+		tokn := []string{"-5", "-7", "-25"}[r.Intn(3)]
+		if firstTy == "f64" && r.Intn(2) == 0 {
+			tokn = "-2.5"
+		}
+		pre := r.Intn(2) // words in front of the token (0: it meets Count, 1: it meets Rest)
+		argv := []string{}
+		if r.Intn(2) == 0 {
+			argv = append(argv, "-v")
+		}
+		for j := 0; j < pre; j++ {
+			argv = append(argv, "3")
+		}
+		argv = append(argv, tokn)
+		cs.Ops = []Op{{Kind: "parse", Args: argv}}
+		cs.Description = describeOps(cs)
+		uname := string([]rune(tokn)[1])
+		c.RunCases([]*Case{cs}, func(cr *CaseResult) {
+			c.classifyCase(cr)
+			var obs parseObs
+			for _, o := range parseBlocks(cr) {
+				obs = o
+			}
+			c.Class(fmt.Sprintf("c07/digit-option: policy=%s first-field=%s meets=%d", policy, firstTy, pre))
+			nCalls := 0
+			for _, l := range obs.logs {
+				if strings.HasPrefix(l, "LOG unknown ") {
+					nCalls++
+				}
+			}
+			in := map[string]interface{}{"case": cs.Description, "argv": argv, "policy": policy}
+			got := fmt.Sprintf("%s %s type %d %q remaining %q, %d handler calls", obs.panic, obs.errKind, obs.errType, obs.errMsg, obs.ret, nCalls)
+			var ok bool
+			var want string
+			switch policy {
+			case "fail":
+				want = "ErrUnknownFlag: unknown flag `" + uname + "'"
+				ok = obs.panic == "" && obs.errKind == "flags" && obs.errType == int(flags.ErrUnknownFlag) && obs.errMsg == "unknown flag `"+uname+"'"
+			case "ignore":
+				want = "the token is passed through (to the positional field): no handler call"
+				ok = obs.panic == "" && nCalls == 0 && (obs.errKind == "ok" || obs.errKind == "foreign")
+			default:
+				want = "exactly one handler call for " + uname
+				ok = obs.panic == "" && nCalls == 1
+			}
+			if !ok {
+				in["case_file"] = c.saveCase(cr)
+			}
+			c.Check("a-digit-option-that-is-not-declared-is-unknown", ok, "C07:digit-option", in, got, want)
+		})
+	}
+}
+
+// checkC09MissingValue: a value-taking option as the LAST word (long, short, last of a cluster) lacks its
+// value: ErrExpectedArgument, and nothing runs - whatever the option's type would make of "".
+func checkC09MissingValue(c *Ctx, n int) {
+	r := c.Rng
+	for i := 0; i < n; i++ {
+		ty := []string{"str", "Lstr", "int", "c0"}[r.Intn(4)]
+		leaf := &StructDesc{Fields: []FieldDesc{
+			{Name: "Name", Exported: true, Kind: "v", Ty: ty, Tag: `long:"name" short:"n"`},
+			{Name: "V", Exported: true, Kind: "v", Ty: "bool", Tag: `short:"v"`}}}
+		// (the command is declared by tag; what runs is observed through the CommandHandler)
+		cs := &Case{Name: "app", NsDelim: ".", EnvNsDelim: "_", CmdHandler: true}
+		cs.Build = []BuildOp{
+			{Kind: "addgroup", Target: 1, Short: "Application Options", Struct: &StructDesc{Fields: []FieldDesc{
+				{Name: "Top", Exported: true, Kind: "v", Ty: "str", Tag: `long:"label"`},
+				{Name: "Leaf", Exported: true, Kind: "s", Tag: `command:"leaf"`, Sub: leaf}}}},
+		}
+		last := []string{"--name", "-n", "-vn", "--label"}[r.Intn(4)]
+		argv := []string{"leaf"}
+		if r.Intn(2) == 0 {
+			argv = append(argv, "a")
+		}
+		given := r.Intn(4) == 0
+		argv = append(argv, last)
+		if given {
+			argv = append(argv, map[string]string{"int": "7"}[ty]+map[bool]string{true: "", false: "x"}[ty == "int"])
+		}
+		cs.Ops = []Op{{Kind: "parse", Args: argv}}
+		cs.Description = describeOps(cs)
+		c.RunCases([]*Case{cs}, func(cr *CaseResult) {
+			c.classifyCase(cr)
+			var obs parseObs
+			for _, o := range parseBlocks(cr) {
+				obs = o
+			}
+			c.Class(fmt.Sprintf("c09/missing-value: type=%s last=%s value-given=%v", ty, last, given))
+			runs := 0
+			for _, l := range obs.logs {
+				if strings.HasPrefix(l, "LOG exec ") || strings.HasPrefix(l, "LOG cmdhandler ") {
+					runs++
+				}
+			}
+			in := map[string]interface{}{"case": cs.Description, "argv": argv}
+			got := fmt.Sprintf("%s %s type %d %q, %d runs", obs.panic, obs.errKind, obs.errType, obs.errMsg, runs)
+			var ok bool
+			want := "ErrExpectedArgument, nothing runs"
+			if given {
+				want = "success, the command runs"
+				ok = obs.panic == "" && obs.errKind == "ok" && runs >= 1
+			} else {
+				ok = obs.panic == "" && obs.errKind == "flags" && obs.errType == int(flags.ErrExpectedArgument) && runs == 0
+			}
+			if !ok {
+				in["case_file"] = c.saveCase(cr)
+			}
+			c.Check("a-missing-value-is-an-error-and-nothing-runs", ok, "C09:missing-value", in, got, want)
+		})
+	}
+}
